@@ -82,7 +82,7 @@ def _run(tier, seed, harness, d):
     res = {"family": "ledger", "mc": [], "tags": [], "samples": [], "tag_universe": TAG_UNIVERSE,
            "assumptions": ["entry points driven at keeper level on a CacheContext of a full ExocoreApp (ctx-mode)",
                            "dogfood hold placement abstracted as HOLDOPS; holds released by DecrementUndelegationHoldCount",
-                           "precompile worlds: assets/delegation precompile Run with the gateway as caller (no revert on false); the precompiles hold a copy of the delegation keeper without hooks (HOOKED = FALSE)",
+                           "precompile worlds: assets/delegation precompile Run with the gateway as caller (no revert on false); since fix 103357a the precompiles reach the delegation hooks like the keeper path (HOOKED = TRUE)",
                            "every undelegation request carries a fresh (nonce, tx hash) pair (FRESH = TRUE)"]}
     # 1. exhaustive model check (pure TLA+ numbers: no override in this directory)
     dm = os.path.join(d, "mc")
